@@ -354,6 +354,159 @@ fn run<const N: usize>(seed: u64, steps: u64) -> bool {
     true
 }
 
+// ---------------------------------------------------------------------------------------------------
+// second pass: elements with a destructor (this program is built with panic = "abort", a configuration no
+// test build can have): created - destroyed must equal what the buffer and the caller hold, at every step and
+// after the buffer itself is dropped
+
+use core::sync::atomic::{AtomicUsize, Ordering};
+static CREATED: AtomicUsize = AtomicUsize::new(0);
+static DROPPED: AtomicUsize = AtomicUsize::new(0);
+
+struct D(u32);
+impl D {
+    fn new(v: u32) -> D {
+        CREATED.fetch_add(1, Ordering::Relaxed);
+        D(v)
+    }
+}
+impl Clone for D {
+    fn clone(&self) -> D {
+        D::new(self.0)
+    }
+}
+impl Drop for D {
+    fn drop(&mut self) {
+        DROPPED.fetch_add(1, Ordering::Relaxed);
+    }
+}
+
+fn live() -> usize {
+    CREATED.load(Ordering::Relaxed) - DROPPED.load(Ordering::Relaxed)
+}
+
+fn run_drops<const N: usize>(seed: u64, steps: u64) -> bool {
+    let mut rng = Rng(seed ^ 0xD0D0_0000 ^ ((N as u64 + 7) << 24) | 1);
+    let base = live();
+    let mut round = 0u64;
+    // several buffers, each destroyed at a random moment (also while full or wrapped)
+    while round < steps / 64 + 1 {
+        let mut b = CircularBuffer::<N, D>::new();
+        let mut len = 0usize;
+        let mut next = 1u32;
+        let mut what = 0u32;
+        let mut step = 0u64;
+        let mut op = 0usize;
+        let stop = rng.below(64) as u64 + 1;
+        while step < stop && what == 0 {
+            op = rng.below(14);
+            match op {
+                0 | 1 | 2 | 3 => {
+                    next += 1;
+                    let r = b.push_back(D::new(next));
+                    if r.is_some() != (len == N) {
+                        what = 40;
+                    }
+                    len = (len + 1).min(N);
+                }
+                4 | 5 => {
+                    next += 1;
+                    let r = b.push_front(D::new(next));
+                    if r.is_some() != (len == N) {
+                        what = 41;
+                    }
+                    len = (len + 1).min(N);
+                }
+                6 => {
+                    if b.pop_front().is_some() != (len > 0) {
+                        what = 42;
+                    }
+                    len = len.saturating_sub(1);
+                }
+                7 => {
+                    if b.pop_back().is_some() != (len > 0) {
+                        what = 43;
+                    }
+                    len = len.saturating_sub(1);
+                }
+                8 => {
+                    let k = rng.below(len + 2);
+                    b.truncate_back(k);
+                    len = len.min(k);
+                }
+                9 => {
+                    let k = rng.below(len + 2);
+                    b.truncate_front(k);
+                    len = len.min(k);
+                }
+                10 => {
+                    if rng.below(3) == 0 {
+                        b.clear();
+                        len = 0;
+                    }
+                }
+                11 => {
+                    let k = rng.below(N + 3).min(12);
+                    let src = [D::new(1), D::new(2), D::new(3), D::new(4), D::new(5), D::new(6), D::new(7), D::new(8), D::new(9), D::new(10), D::new(11), D::new(12)];
+                    b.extend_from_slice(&src[..k]);
+                    len = (len + k).min(N);
+                }
+                12 => {
+                    let a = rng.below(len + 1);
+                    let z = a + rng.below(len - a + 1);
+                    let mut d = b.drain(a..z);
+                    if rng.below(2) == 0 {
+                        let _ = d.next();
+                    }
+                    if rng.below(2) == 0 {
+                        let _ = d.next_back();
+                    }
+                    drop(d);
+                    len -= z - a;
+                }
+                _ => {
+                    let i = rng.below(len + 1);
+                    if b.remove(i).is_some() != (i < len) {
+                        what = 44;
+                    } else if i < len {
+                        len -= 1;
+                    }
+                }
+            }
+            if what == 0 && (b.len() != len || live() != base + len) {
+                what = 45;
+            }
+            step += 1;
+        }
+        if what == 0 {
+            drop(b);
+            if live() != base {
+                what = 46;
+            }
+        }
+        if what != 0 {
+            out(b"FAIL (elements with a destructor) N=");
+            out_num(N as u64);
+            out(b" round=");
+            out_num(round);
+            out(b" step=");
+            out_num(step);
+            out(b" op=");
+            out_num(op as u64);
+            out(b" what=");
+            out_num(what as u64);
+            out(b" live=");
+            out_num(live() as u64);
+            out(b" expected=");
+            out_num((base + len) as u64);
+            out(b"\n");
+            return false;
+        }
+        round += 1;
+    }
+    true
+}
+
 unsafe fn parse(p: *const u8) -> u64 {
     let mut v = 0u64;
     let mut i = 0;
@@ -379,7 +532,14 @@ pub extern "C" fn main(argc: i32, argv: *const *const u8) -> i32 {
         && run::<5>(seed, steps)
         && run::<8>(seed, steps)
         && run::<16>(seed, steps)
-        && run::<33>(seed, steps);
+        && run::<33>(seed, steps)
+        && run_drops::<0>(seed, steps)
+        && run_drops::<1>(seed, steps)
+        && run_drops::<2>(seed, steps)
+        && run_drops::<3>(seed, steps)
+        && run_drops::<5>(seed, steps)
+        && run_drops::<8>(seed, steps)
+        && run_drops::<16>(seed, steps);
     if ok {
         out(b"OK steps=");
         out_num(steps * 8);
